@@ -322,6 +322,21 @@ class History:
             if kind in ("exec", "hook", "ack", "timeout", "stray_ack", "stray_timeout"):
                 self._replay_calls(tx)
             self._sync_dump()
+            # run-time cross-check of the world-level theorems (MW/Inv/WorldInv.lean): while the history is
+            # inside their hypotheses (`envelope`), each proved equation must evaluate to true on the model
+            # world -- which the state comparison above has just tied to the implementation
+            if "winv" in tx:
+                if tx.get("envelope"):
+                    self.stats.bump(self.stats.by_event, "_inside_EvOK")
+                    names = ["L1", "L2", "N2", "F1", "N1", "P2"]
+                    props = {"L1": "C03", "L2": "C03", "N2": "C02", "F1": "C01", "N1": "C01", "P2": "C07"}
+                    for nm, okv in zip(names, tx["winv"]):
+                        if not okv:
+                            self.findings.append({"property": props[nm], "monitor": "lean_winv", "signature": {"eq": nm},
+                                                  "what": "equation %s proved in MW/Inv/WorldInv.lean evaluates to false on the model world inside its hypotheses" % nm,
+                                                  "upto": len(self.events), "event": ev})
+                else:
+                    self.stats.bump(self.stats.by_event, "_outside_EvOK")
         if self.monitors:
             rec = self._record(ev, tx)
             for m in self.monitors:
